@@ -359,9 +359,23 @@ def judge_instance(M, kind, e, spec_line, impl_line):
         if not (same_verdict and o["e"] > 0):
           which = "sgscanner" if all(k & 1 for k in diff) else ("fullchecking" if all(k & 4 for k in diff) else
                   ("sax2" if all(k & 2 for k in diff) else "mixed"))
+          field = ""
+          if same_verdict:
+              # same errors: the difference is in the delivered document (PSVI type names, defaulted attributes, element
+              # default text) — name the first element and field that differ
+              da, db = parse_dump(o["dump"]), parse_dump(ok["dump"])
+              field = "; delivered documents differ in length (%d / %d elements)" % (len(da), len(db)) if len(da) != len(db) else ""
+              for n, (x, y) in enumerate(zip(da, db)):
+                  fs = [f for f in ("name", "type", "attrs", "text") if x[f] != y[f]]
+                  if fs:
+                      f = fs[0]
+                      field = "; first difference: element #%d %s, %s: c0 delivers %s, c%d delivers %s" % (
+                          n, x["name"], {"type": "PSVI type name", "attrs": "attributes", "text": "character data", "name": "name"}[f],
+                          sorted(x[f]) if f == "attrs" else repr(x[f]), k, sorted(y[f]) if f == "attrs" else repr(y[f]))
+                      break
           bad.append(("doc:configs-disagree:" + which + (":delivered-content" if same_verdict else ":verdict"),
-                    "configuration c%d (bit0 SGXMLScanner, bit1 SAX2, bit2 full checking) reports %s, c0 reports e%d,f%d:%s" % (
-                        k, desc, o["e"], o["f"], "+".join(code_name(c) for c in o["codes"]))))
+                    "configuration c%d (bit0 SGXMLScanner, bit1 SAX2, bit2 full checking) reports %s, c0 reports e%d,f%d:%s%s" % (
+                        k, desc, o["e"], o["f"], "+".join(code_name(c) for c in o["codes"]), field)))
     if o["f"]:
         bad.append(("doc:fatal-on-wellformed", "fatal error on a well-formed document: " + "+".join(code_name(c) for c in o["codes"])))
         return bad
